@@ -1,5 +1,5 @@
 (* Property C20: string formatting is total and faithful to the format directive.
-   Statements only; the proofs are in Proofs/Format{Proofs,Width,Total,Radix,NoFault,Share}.v, the model in
+   Statements only; the proofs are in Proofs/Format{Proofs,Width,Total,Radix,NoFault,Share,FloatShape,Layout}.v, the model in
    Model/Format.v (one Gallina function per Go method; oracles for strconv float digits, quoting
    beyond plain ASCII, Unicode case mapping, int64<->float64 and nested container types). *)
 From Coq Require Import String.
@@ -7,6 +7,7 @@ From Coq Require Import ZArith NArith Bool List.
 From PcoreV Require Import Model.Base Model.Format Model.FormatShare Model.FormatSprintf.
 From PcoreV Require Import Proofs.FormatSprintf.
 From PcoreV Require Import Proofs.FormatProofs Proofs.FormatWidth Proofs.FormatTotal Proofs.FormatRadix Proofs.FormatRadixPad Proofs.FormatNoFault Proofs.FormatShare.
+From PcoreV Require Import Model.FormatFloatShape Proofs.FormatFloatShape Proofs.FormatLayout.
 Import ListNotations.
 Open Scope Z_scope.
 
@@ -226,6 +227,146 @@ Example C20_width_ex :
   /\ format_value o0 VUndef (FStr (lit "%10s")) = Some (OText (lit "     undef")).
 Proof. vm_compute. repeat split. Qed.
 
+(* --- width for EVERY directive: the float verbs e E f g G a A, the digit string an oracle ------------ *)
+
+(* The digit strings of strconv.FormatFloat are an oracle (the table o_fdig of `o`, any table: `dig_of o` is an arbitrary
+   partial function (bits, verb, precision) -> string).  For EVERY table of ASCII digit strings (fdig_ascii; strconv
+   writes digits, '.', 'e', 'p', 'x', signs, "Inf", "NaN" only, and the correspondence evaluates fdig_ascii on the
+   strings the implementation showed in every case of every run) every scalar rendering - Integer / Float / Boolean under
+   e E f g G a A included - is at least `width` runes wide.  No float_path exclusion: this is the property's width
+   clause for all directives; the _partial theorems above are its corollaries for tables of any content. *)
+Theorem C20_width_respected :
+  forall (o : oracle) (f : format) (v : value) (t : str),
+    fdig_ascii o = true -> is_container v = false ->
+    render_scalar o f v = OText t -> f_width f <= rlen t.
+Proof. exact width_respected_all. Qed.
+Print Assumptions C20_width_respected.
+
+Theorem C20_width_respected_directive :
+  forall (o : oracle) (v : value) (s : str) (f : format) (t : str),
+    fdig_ascii o = true -> is_container v = false ->
+    parse_format s None None CfNone = ROk f ->
+    format_value o v (FStr s) = Some (OText t) -> f_width f <= rlen t.
+Proof. exact width_respected_directive_all. Qed.
+Print Assumptions C20_width_respected_directive.
+
+(* for digit strings of ANY content (no hypothesis on the table at all) the text is at least `width` BYTES long:
+   fmt and padFloat measure the digit string in bytes (len(num), format.go:586; len(s), floattype.go:387) *)
+Theorem C20_width_respected_bytes :
+  forall (o : oracle) (f : format) (v : value) (t : str),
+    is_container v = false -> render_scalar o f v = OText t -> f_width f <= len t.
+Proof. exact width_respected_bytes. Qed.
+Print Assumptions C20_width_respected_bytes.
+
+(* the ASCII hypothesis cannot be dropped from the rune statement: around a digit string with a two-byte rune fmt's
+   zero padding (counted in bytes) gives 5 runes for width 6 - strconv never writes such a string *)
+Example C20_width_needs_ascii_digits :
+  let o := mkOracle [] [] [] [((4609434218613702656, 102%N, 6), [49; 195; 169]%N)] [] [] [] in
+  fdig_ascii o = false
+  /\ format_value o (VFloat 4609434218613702656) (FStr (lit "%+06f")) = Some (OText [43; 48; 48; 49; 195; 169]%N)
+  /\ rlen [43; 48; 48; 49; 195; 169]%N = 5 /\ len [43; 48; 48; 49; 195; 169]%N = 6.
+Proof. vm_compute. repeat split. Qed.
+
+(* --- the shape built around the digit string ----------------------------------------------------- *)
+
+(* fmt.fmtFloat (the model's method-by-method transcription fmt_float: sign rewriting, the Inf/NaN arm, the '#' scan,
+   "sign first, then zeros" arm, pad) IS the specification fmt_float_spec of Model/FormatFloatShape.v:
+     text = fl_layout minus (zero and not Inf/NaN) width sign body
+     sign = "-" for a negative number, else "+" under '+', else " " under ' ', else nothing ("+" for +Inf)
+     body = the digit string as it is (after the '#' completion sharp_fix under '#')
+   for EVERY table of ASCII digit strings, every flag set, width, precision, verb and float *)
+Theorem C20_float_shape :
+  forall (o : oracle) (sharp zero plus space minus : bool) (wid prec : Z) (verb : N) (bits : Z),
+    fdig_ascii o = true ->
+    fmt_float o sharp zero plus space minus wid prec verb bits =
+    fmt_float_spec (dig_of o) sharp zero plus space minus wid prec verb bits.
+Proof. exact fmt_float_shape. Qed.
+Print Assumptions C20_float_shape.
+
+(* what the layout is: spaces, sign, zeros, body, spaces - at most one pad non-empty, together exactly the bytes
+   missing to `width` (none when the text is wider: nothing is ever cut); under '-' the pad is on the right and the
+   '0' flag is ignored; under '0' the zeros stand between the sign and the digits; otherwise spaces on the left *)
+Theorem C20_float_layout_parts :
+  forall (minus zero : bool) (wid : Z) (sign body : str),
+  exists lpad zpad rpad : Z,
+    fl_layout minus zero wid sign body = spaces lpad ++ sign ++ zeros zpad ++ body ++ spaces rpad
+    /\ lpad + zpad + rpad = Z.max 0 (wid - (len sign + len body))
+    /\ 0 <= lpad /\ 0 <= zpad /\ 0 <= rpad
+    /\ (minus = true -> lpad = 0 /\ zpad = 0)
+    /\ (minus = false -> rpad = 0 /\ (if zero then lpad = 0 else zpad = 0)).
+Proof. exact fl_layout_parts. Qed.
+Print Assumptions C20_float_layout_parts.
+
+Theorem C20_float_layout_len :
+  forall (minus zero : bool) (wid : Z) (sign body : str),
+    len (fl_layout minus zero wid sign body) = Z.max wid (len sign + len body).
+Proof. exact fl_layout_len. Qed.
+Print Assumptions C20_float_layout_len.
+
+(* Boolean / Integer / Float under e E f a A (the verbs floatValue.ToString hands to fmt as they are; a A as x X):
+   the text is that shape around the digit string of the value's float64 *)
+Theorem C20_float_shape_scalar :
+  forall (o : oracle) (f : format) (v : value) (bits : Z),
+    fdig_ascii o = true -> float_bits_of o v = Some bits -> float_verb_direct (f_char f) = true ->
+    render_scalar o f v = go_fmt_float_spec (dig_of o) f (fl_verb (f_char f)) bits.
+Proof. exact render_scalar_float_shape. Qed.
+Print Assumptions C20_float_shape_scalar.
+
+(* padFloat (floattype.go:386, the padding of g G) is the same layout, the sign being the text's first byte; every text *)
+Theorem C20_pad_float_shape :
+  forall (f : format) (s : str), pad_float f s = pad_float_spec f s.
+Proof. exact pad_float_shape. Qed.
+Print Assumptions C20_pad_float_shape.
+
+(* floatGFormat (g G): the text is fmt's %g text (no width) followed by the fill ('.', '0's) the precision asks for,
+   laid out by padFloat - never cut - or the value rendered anew under %e / %E (itself the shape above) *)
+Theorem C20_float_g_shape :
+  forall (o : oracle) (f : format) (bits : Z) (t : str),
+    float_g o f bits = OText t ->
+    exists s, go_fmt_float o (without_width f) (f_char f) bits = OText s /\
+      ((exists fill, t = pad_float_spec f (s ++ fill) /\ Forall (fun c => c = 46%N \/ c = 48%N) fill)
+       \/ (exists p, go_fmt_float o (with_prec (replace_char f (if N.eqb (f_char f) 71 then 69%N else 101%N)) p)
+                                  (if N.eqb (f_char f) 71 then 69%N else 101%N) bits = OText t)).
+Proof. exact float_g_shape. Qed.
+Print Assumptions C20_float_g_shape.
+
+(* the correspondence obligation float_shape_check (Corr/CorrC20.v evaluates it on every case of a run: fdig_ascii of the
+   observed digit strings, width in runes under e E f g G a A, observed text = go_fmt_float_spec under e E f a A) holds
+   of the model's own text, so a failure of it is a difference between model and implementation *)
+Theorem C20_float_shape_check_sound :
+  forall (o : oracle) (v : value) (spec : fspec) (t : str),
+    fdig_ascii o = true ->
+    format_value o v spec = Some (OText t) -> float_shape_check o v spec (OText t) = true.
+Proof. exact float_shape_check_model. Qed.
+Print Assumptions C20_float_shape_check_sound.
+
+(* width for a scalar under ANY specification (directive string, per-type map of any nesting, default): the width of the
+   format GetFormat selects for the value *)
+Theorem C20_width_respected_any_spec :
+  forall (o : oracle) (v : value) (spec : fspec) (f : format) (t : str),
+    fdig_ascii o = true -> scalar_format o v spec = Some f ->
+    format_value o v spec = Some (OText t) -> f_width f <= rlen t.
+Proof. exact width_respected_spec. Qed.
+Print Assumptions C20_width_respected_any_spec.
+
+(* -1.5, 1.5, +Inf: zeros between sign and digits, left alignment (the '0' flag ignored), spaces on the left, the ' ' and
+   '+' flags, '#', Inf never zero padded, %g filled to 6 significant digits then zero padded *)
+Example C20_float_shape_ex :
+  let pos := 4609434218613702656 in let neg := 13832806255468478464 in let inf := 9218868437227405312 in
+  let o := mkOracle [] [] [] [((neg, 102%N, 2), lit "1.50"); ((pos, 102%N, 2), lit "1.50"); ((pos, 102%N, 0), lit "2");
+                              ((inf, 102%N, 6), lit "+Inf"); ((pos, 103%N, -1), lit "1.5")] [] [] [] in
+  fdig_ascii o = true
+  /\ format_value o (VFloat neg) (FStr (lit "%+010.2f")) = Some (OText (lit "-000001.50"))
+  /\ format_value o (VFloat neg) (FStr (lit "%-010.2f")) = Some (OText (lit "-1.50     "))
+  /\ format_value o (VFloat neg) (FStr (lit "%10.2f")) = Some (OText (lit "     -1.50"))
+  /\ format_value o (VFloat pos) (FStr (lit "% 10.2f")) = Some (OText (lit "      1.50"))
+  /\ format_value o (VFloat pos) (FStr (lit "%+-8.2f")) = Some (OText (lit "+1.50   "))
+  /\ format_value o (VFloat pos) (FStr (lit "%#.0f")) = Some (OText (lit "2."))
+  /\ format_value o (VFloat inf) (FStr (lit "%010f")) = Some (OText (lit "      +Inf"))
+  /\ format_value o (VFloat pos) (FStr (lit "%08g")) = Some (OText (lit "01.50000"))
+  /\ go_fmt_float_spec (dig_of o) (mkFormat false false true 102 43 2 10 0 None None CfNone) 102 neg = OText (lit "-000001.50").
+Proof. vm_compute. repeat split. Qed.
+
 (* --- containers are rendered recursively ------------------------------------------------------- *)
 
 (* Array: under the format f that GetFormat selects (letter a, s or p; not alternate; outside an
@@ -267,6 +408,106 @@ Example C20_container_ex :
   = Some (OText (lit "(a; ff)"))
   /\ format_value o0 (VHash [(VInt 1, VArr [VInt 2])]) (FStr (lit "%#h")) <> None.
 Proof. vm_compute. split; [reflexivity | discriminate]. Qed.
+
+(* --- containers, EVERY layout (alternate '#', nested in an indenting context) ------------------------- *)
+
+(* The two theorems above without `f_alt f = false` and `i_indenting ind = false`: for any format GetFormat selects and any
+   indentation, if the children render to texts under the children's context child_ind f ind (level + 1, indenting iff '#')
+   the container renders to arr_layout / hash_layout of those texts (Model/Format.v; closed forms below) *)
+Theorem C20_array_recursive_any_layout :
+  forall n o ind m es f ts,
+    get_format o m (VArr es) = ROk f -> mem (f_char f) set_array = true ->
+    Forall2 (fun e t => render n o (i_subsequent (child_ind f ind))
+                               (if is_container e then m else cf_or_default f) false e = Some (OText t)) es ts ->
+    render (S n) o ind m false (VArr es) = Some (OText (arr_layout f ind 91 (combine (map is_container es) ts))).
+Proof. exact array_recursive_any. Qed.
+Print Assumptions C20_array_recursive_any_layout.
+
+Theorem C20_hash_recursive_any_layout :
+  forall n o ind m es f ts,
+    get_format o m (VHash es) = ROk f -> N.eqb (f_char f) 97 = false -> mem (f_char f) l_hsp = true ->
+    Forall2 (fun kv t =>
+               render n o (child_ind f ind) (if is_container (fst kv) then m else cf_or_default f) false (fst kv) = Some (OText (fst t)) /\
+               render n o (child_ind f ind) (if is_container (snd kv) then m else cf_or_default f) false (snd kv) = Some (OText (snd t))) es ts ->
+    render (S n) o ind m false (VHash es) = Some (OText (hash_layout f ind ts)).
+Proof. exact hash_recursive_any. Qed.
+Print Assumptions C20_hash_recursive_any_layout.
+
+(* a Hash under %a is rendered as the array of its entries [key, value] *)
+Theorem C20_hash_as_array :
+  forall n o ind m es f,
+    get_format o m (VHash es) = ROk f -> N.eqb (f_char f) 97 = true ->
+    render (S n) o ind m false (VHash es) = render n o ind m true (VArr (map entry_array es)).
+Proof. exact hash_as_array. Qed.
+Print Assumptions C20_hash_as_array.
+
+(* the alternate Hash layout in closed form: [line break + own padding when nested and not first] delimiter, newline,
+   one line per entry padded to the children's level (two spaces per level), entries separated by separator + newline,
+   the closing delimiter on its own line at the own level *)
+Theorem C20_hash_layout_alternate :
+  forall f ind items,
+    f_alt f = true ->
+    let own := i_set_indenting ind true in
+    hash_layout f ind items =
+    (if i_breaks own then line_break own else []) ++
+    opt_byte (fst (delim_pair (if N.eqb (f_delim f) 0 then 123%N else f_delim f))) ++ [10%N] ++
+    join (sep_or (f_sep f) s_comma ++ [10%N])
+         (map (fun kv => i_padding (i_increase own true) ++ fst kv ++ sep_or (f_sep2 f) s_arrow ++ snd kv) items) ++
+    line_break own ++
+    opt_byte (snd (delim_pair (if N.eqb (f_delim f) 0 then 123%N else f_delim f))).
+Proof. exact hash_layout_alternate. Qed.
+Print Assumptions C20_hash_layout_alternate.
+
+(* Array, any layout: scalar elements and no width (no break for size) stay on one line: [line break + own padding]
+   delimiter, texts joined by separator + space, delimiter *)
+Theorem C20_array_layout_scalars :
+  forall f ind delim items,
+    Forall (fun it => fst it = false) items -> f_width f < 0 ->
+    let own := i_set_indenting ind (f_alt f || i_indenting ind) in
+    arr_layout f ind delim items =
+    (if i_breaks own then line_break own else []) ++
+    opt_byte (fst (delim_pair (if N.eqb (f_delim f) 0 then delim else f_delim f))) ++
+    join (sep_or (f_sep f) s_comma ++ [32%N]) (map snd items) ++
+    opt_byte (snd (delim_pair (if N.eqb (f_delim f) 0 then delim else f_delim f))).
+Proof. exact arr_layout_scalars. Qed.
+Print Assumptions C20_array_layout_scalars.
+
+(* Array, alternate layout, between two elements: the separator, then nothing before a container child (it breaks the line
+   itself), a line break + children's padding before a scalar that follows a container (or when lines are broken for size),
+   else one space *)
+Theorem C20_array_alternate_step :
+  forall szb pad sep ah s r prev,
+    arr_rest true szb pad sep ((ah, s) :: r) prev =
+    sep ++ (if ah then [] else if szb || prev then 10%N :: pad else [32%N]) ++ s ++ arr_rest true szb pad sep r ah.
+Proof. exact arr_rest_alternate_step. Qed.
+Print Assumptions C20_array_alternate_step.
+
+(* nesting: a container child of an alternate Array starts on a new line at level + 1; a container under a Hash key or
+   value never breaks (it follows ` => ` on the entry's line) *)
+Theorem C20_nested_in_array_breaks :
+  forall f ind f',
+    f_alt f = true ->
+    let own' := i_set_indenting (i_subsequent (child_ind f ind)) (f_alt f' || i_indenting (i_subsequent (child_ind f ind))) in
+    i_breaks own' = true /\ i_level own' = S (i_level ind).
+Proof. exact nested_in_array_breaks. Qed.
+Print Assumptions C20_nested_in_array_breaks.
+
+Theorem C20_nested_in_hash_no_break :
+  forall f ind f',
+    let own' := i_set_indenting (child_ind f ind) (f_alt f' || i_indenting (child_ind f ind)) in
+    i_breaks own' = false /\ i_level own' = S (i_level ind).
+Proof. exact nested_in_hash_no_break. Qed.
+Print Assumptions C20_nested_in_hash_no_break.
+
+Example C20_alternate_layout_ex :
+  let nl := [10%N] in
+  let sp := FMap [(KHash, FEStr (lit "%#h")); (KArray, FEStr (lit "%#a"))] in
+  let h := VHash [(VStr (lit "a"), VInt 1); (VStr (lit "b"), VArr [VInt 2; VArr [VInt 3; VInt 4]; VInt 5])] in
+  format_value o0 h sp =
+  Some (OText (lit "{" ++ nl ++ lit "  'a' => 1," ++ nl ++ lit "  'b' => [2," ++ nl ++ lit "    [3, 4]," ++ nl ++ lit "    5]" ++ nl ++ lit "}"))
+  /\ format_value o0 (VArr [VInt 1; VArr [VInt 2; VInt 3]; VInt 4]) sp =
+     Some (OText (lit "[1," ++ nl ++ lit "  [2, 3]," ++ nl ++ lit "  4]")).
+Proof. vm_compute. split; reflexivity. Qed.
 
 (* --- one container instance at several positions (aliasing) ---------------------------------- *)
 
